@@ -33,7 +33,7 @@
       `userhash=true` request (the C accepts it and then authorizes the *presented*
       string as the user name).
 -/
-import LtVerif.Model.Path
+import LtVerif.Model.Burl
 import LtVerif.Extracted.AuthTables
 namespace LtVerif.Auth
 open LtVerif B
@@ -416,8 +416,13 @@ structure Req where
   target : Bytes      -- r->target_orig
   path : Bytes        -- r->uri.path
   auth : Option Bytes -- Authorization header
-  h2ext : Bool        -- r->h2_connect_ext
+  protocol : Bool     -- HTTP/2: a ":protocol: websocket" pseudo-header was received (HTTP/1.x: false)
 deriving Repr
+
+/-- r->h2_connect_ext as mod_auth sees it: RFC 8441 extended CONNECT, i.e. ":protocol" counts
+    only when the method is CONNECT (http_request_validate_pseudohdrs() clears it otherwise,
+    wherever ":protocol" stood relative to ":method") -/
+def Req.h2ext (r : Req) : Bool := r.method = ofString "CONNECT" && r.protocol
 
 /-! ### Basic -/
 
@@ -847,6 +852,117 @@ def step (P : Prims) (cfg : Cfg) (st : St) : Op → St × Option Outcome
 def run (P : Prims) (cfg : Cfg) : St → List Op → St
   | st, [] => st
   | st, op :: ops => run P cfg (step P cfg st op).1 ops
+
+/-! ### HTTP/2 request header path (request.c): from the decoded header list to the request
+    mod_auth sees.  http_request_parse_header() per field, http_request_validate_pseudohdrs()
+    at the first regular field (or at the end), then http_request_parse().
+    Domain exercised by the correspondence: lower-case regular field names, host names that
+    pass the host policy, parse options `h2Opts`. -/
+
+structure H2Acc where
+  method : Option Bytes := none
+  target : Bytes := []            -- r->target (":path")
+  host : Option Bytes := none     -- r->http_host (":authority", lower-cased)
+  scheme : Bool := false
+  ext : Bool := false             -- ":protocol: websocket" seen
+  pseudo : Bool := true           -- still in the pseudo-header block
+  auth : Option Bytes := none     -- Authorization request header
+  hlen : Nat := 0
+deriving Repr
+
+def knownMethod (m : Bytes) : Bool :=
+  (Extracted.httpMethods.map fun l => l.map Nat.toUInt8).contains m
+
+def trimWs (v : Bytes) : Bytes := ((v.dropWhile isWs).reverse.dropWhile isWs).reverse
+
+/-- http_request_validate_pseudohdrs(): `.error status` or the accumulator with r->target final -/
+def validatePseudo (a : H2Acc) : Except Nat H2Acc :=
+  match a.method with
+  | none => .error 400
+  | some m =>
+    if m ≠ ofString "CONNECT" ∨ a.ext then
+      -- (":protocol" is ignored unless the method is CONNECT: both readings take this branch)
+      if !a.scheme then .error 400
+      else if a.target = [] then .error 400
+      else if a.target.head? ≠ some 47 ∧ ¬(a.target = [42] ∧ m = ofString "OPTIONS") then .error 400
+      else .ok { a with pseudo := false }
+    else
+      match a.host with
+      | none => .error 400
+      | some h =>
+        if a.target ≠ [] ∨ a.scheme then .error 400
+        else .ok { a with target := h, pseudo := false }
+
+/-- one pseudo-header field -/
+def h2Pseudo (a : H2Acc) (k v : Bytes) : Except Nat H2Acc :=
+  if !a.pseudo then .error 400
+  else if v = [] then .error 400
+  else if k = ofString ":authority" then
+    (if a.host.isSome then .error 400 else if v.length ≥ 1024 then .error 400
+     else .ok { a with host := some (v.map toLower) })
+  else if k = ofString ":method" then
+    (if a.method.isSome then .error 400 else if !knownMethod v then .error 501
+     else .ok { a with method := some v })
+  else if k = ofString ":path" then
+    (if a.target ≠ [] then .error 400 else .ok { a with target := v })
+  else if k = ofString ":scheme" then
+    (if a.scheme then .error 400 else .ok { a with scheme := true })
+  else if k = ofString ":protocol" then
+    (if v ≠ ofString "websocket" then .error 405 else .ok { a with ext := true })
+  else .error 400
+
+/-- one regular field (after the pseudo-header block has been validated) -/
+def h2Regular (a : H2Acc) (k v : Bytes) : Except Nat H2Acc :=
+  if v = [] then .ok a
+  else if v.any (fun b => (b < 32 && b ≠ 9) || b = 127) then .error 400
+  else if trimWs v = [] then .ok a
+  else if !k.all (fun b => isLower b || b = 45) then .error 400
+  else if k = ofString "authorization" then
+    .ok { a with auth := some (match a.auth with
+                               | none => trimWs v
+                               | some o => o ++ ofString ", " ++ trimWs v) }
+  else .ok a
+
+/-- http_request_parse_header() -/
+def h2Field (a : H2Acc) (k v : Bytes) : Except Nat H2Acc :=
+  if k = [] then .error 400
+  else if a.hlen + k.length + v.length + 4 > 8192 then .error 431
+  else if k.head? = some 58 then h2Pseudo { a with hlen := a.hlen + k.length + v.length + 4 } k v
+  else if a.pseudo then
+    match validatePseudo { a with hlen := a.hlen + k.length + v.length + 4 } with
+    | .error s => .error s
+    | .ok a' => h2Regular a' k v
+  else h2Regular { a with hlen := a.hlen + k.length + v.length + 4 } k v
+
+def h2Fields : List (Bytes × Bytes) → H2Acc → Except Nat H2Acc
+  | [], a => .ok a
+  | kv :: rest, a =>
+    match h2Field a kv.1 kv.2 with
+    | .error s => .error s
+    | .ok a' => h2Fields rest a'
+
+/-- parse options of the correspondence run (header-strict, url-normalize, unreserved,
+    ctrls-reject, path-2f-decode, dotseg-remove, invalid-utf8-reject) -/
+def h2Opts : Opts := ⟨9561⟩
+
+/-- the request mod_auth is handed for a decoded HTTP/2 header list; `.error status` when the
+    request is answered by the parser (400 / 405 / 431 / 501) and never reaches mod_auth -/
+def h2Request (fields : List (Bytes × Bytes)) : Except Nat Req :=
+  match h2Fields fields {} with
+  | .error s => .error s
+  | .ok a0 =>
+    match (if a0.pseudo then validatePseudo a0 else .ok a0) with
+    | .error s => .error s
+    | .ok a =>
+      match a.method with
+      | none => .error 400
+      | some m =>
+        let special : Bool := (m = ofString "CONNECT" && !a.ext) || (m = ofString "OPTIONS" && a.target = [42])
+        match parseTarget h2Opts special a.target with
+        | .error s => .error s
+        | .ok t =>
+          if a.host.isNone then .error 400
+          else .ok { method := m, target := a.target, path := t.path, auth := a.auth, protocol := a.ext }
 
 /-! ### specification vocabulary (what "valid credentials of an authorized user" means) -/
 
